@@ -303,15 +303,78 @@ func cfgStoreBG(c *Ctx, kind string, life, gci int64) {
 		if err := ps.PutSeeder(ih, p); err != nil {
 			return "put=err"
 		}
-		time.Sleep(time.Duration(gci)*5 + 50*time.Millisecond)
+		tickClock(time.Duration(gci)*5 + 50*time.Millisecond)
 		kept := ps.ScrapeSwarm(ih, bittorrent.IPv4).Complete == 1
 		if life > 0 && life < int64(time.Second) { // a lifetime this short: the peer must go, give the loop time under load
 			for i := 0; i < 100 && kept; i++ {
-				time.Sleep(30 * time.Millisecond)
+				tickClock(30 * time.Millisecond)
 				kept = ps.ScrapeSwarm(ih, bittorrent.IPv4).Complete == 1
 			}
 		}
 		return "kept=" + b01(kept)
+	}()
+	c.Emit(op, obs)
+}
+
+// tickClock keeps the (pinned) cached clock at the wall time for d, as the global ticker would
+func tickClock(d time.Duration) {
+	for end := time.Now().Add(d); time.Now().Before(end); time.Sleep(5 * time.Millisecond) {
+		timecache.VerifSetClock(time.Now().UnixNano())
+	}
+	timecache.VerifSetClock(time.Now().UnixNano())
+}
+
+// st.bg_loop: the store's own expiry loop measures a membership's age on the clock it was stamped with. The cached
+// clock is pinned lag behind the wall clock (it is up to one refresh period behind in production), a peer announces,
+// and the loop ticks a dozen times while that clock stands still: no time has passed for the tracker, the peer stays;
+// it stays at half its lifetime and goes once the lifetime has passed on that clock.
+func stBGLoop(c *Ctx, kind string, life, lag int64) {
+	c0 := time.Now().UnixNano() - lag
+	op := fmt.Sprintf("st.bg_loop kind=%s life=%d lag=%d c=%d", kind, life, lag, c0)
+	c.Begin(op)
+	obs := func() (o string) {
+		defer func() {
+			if p := recover(); p != nil {
+				o = "PANIC " + strings.Fields(fmt.Sprint(p))[0]
+			}
+		}()
+		timecache.VerifSetClock(c0)
+		gci := 20 * time.Millisecond
+		var ps storage.PeerStore
+		var err error
+		if kind == "redis" {
+			mr, e := miniredis.Run()
+			if e != nil {
+				return "miniredis-failed"
+			}
+			defer mr.Close()
+			ps, err = redis.New(redis.Config{RedisBroker: "redis://@" + mr.Addr() + "/0", PeerLifetime: time.Duration(life), GarbageCollectionInterval: gci})
+		} else {
+			ps, err = memory.New(memory.Config{ShardCount: 2, PeerLifetime: time.Duration(life), GarbageCollectionInterval: gci})
+		}
+		if err != nil {
+			return "new=err"
+		}
+		defer func() { <-ps.Stop() }()
+		p := bittorrent.Peer{ID: bittorrent.PeerIDFromString(strings.Repeat("\x01", 20)), Port: 6881,
+			IP: bittorrent.IP{IP: []byte{10, 0, 0, 1}, AddressFamily: bittorrent.IPv4}}
+		ih := bittorrent.InfoHashFromString(strings.Repeat("\x07", 20))
+		if err := ps.PutSeeder(ih, p); err != nil {
+			return "put=err"
+		}
+		kept := func() int { return int(ps.ScrapeSwarm(ih, bittorrent.IPv4).Complete) }
+		time.Sleep(300 * time.Millisecond)
+		frozen := kept()
+		timecache.VerifSetClock(c0 + life/2)
+		time.Sleep(150 * time.Millisecond)
+		half := kept()
+		timecache.VerifSetClock(c0 + life)
+		full := kept()
+		for i := 0; i < 150 && full != 0; i++ { // give the loop time under load
+			time.Sleep(20 * time.Millisecond)
+			full = kept()
+		}
+		return fmt.Sprintf("frozen_kept=%d half_kept=%d full_kept=%d", frozen, half, full)
 	}()
 	c.Emit(op, obs)
 }
